@@ -14,13 +14,14 @@ Support table (taken from the reader/writer code, re-verified by the `unsupporte
 """
 import collections
 import copy
+import io
 import random
 import re
 import warnings
 
 from hypothesis import strategies as st
 
-from lib import runner, shapes
+from lib import budget, runner, shapes
 
 CONFIG = {
     "shards": {"quick": 8, "thorough": 16},
@@ -317,6 +318,8 @@ def matrix_cases(draw, tier):
     max_hops = 2 if tier == "quick" else 3
     nhops = draw(st.sampled_from([1, 1, 2] if max_hops == 2 else [1, 1, 2, 2, 3]))
     hops = [draw(variants(dtype)) for _ in range(nhops)]
+    for v in hops:
+        v["io"] = draw(st.sampled_from(["string", "string", "stream"]))
     routes = [r for r in ROUTES if not (r == "parse_nexus" and dtype not in SUPPORT["nexus"])
               and not (r == "parse_fasta" and dtype not in SUPPORT["fasta"])]
     kind = draw(st.sampled_from(routes))
@@ -533,11 +536,22 @@ def verdict(ctx, ok, clause, key, info, fmt, detail):
     raise runner.KnownSkip()
 
 
+STEP_LIMIT = 3 * 10 ** 6  # library events (calls + backward jumps); the largest legitimate call needs < 10 ** 5
+
+
 def lib_call(ctx, clause, key, info, fmt, fn, *args, **kwargs):
+    """Call library code under a deterministic step budget: an exception raised by library code, or a call that does
+    not terminate, fails `clause` (under the narrow known-finding key when that finding's input predicate holds)."""
     try:
         with warnings.catch_warnings():
             warnings.simplefilter("ignore")
-            return fn(*args, **kwargs)
+            res, used = budget.run(lambda: fn(*args, **kwargs), STEP_LIMIT)
+            ctx.notes.setdefault("max", {})["library_events_per_call"] = max(
+                ctx.notes.get("max", {}).get("library_events_per_call", 0), used)
+            return res
+    except budget.HangDetected as e:
+        ctx.fail(clause, known_key(info, fmt) or "%s:does_not_terminate" % key, str(e))
+        raise runner.KnownSkip()
     except (runner.Violation, runner.KnownSkip):
         raise
     except RecursionError:
@@ -669,8 +683,15 @@ def do_hop(ctx, dtype, m, want, v, extras, info, tag):
     name = variant_name(v)
     fmt = v["fmt"]
     info = dict(info, cells=(fmt == "nexml" and not v["seqs"]))
-    text = lib_call(ctx, "write_" + fmt, "C09.write:" + name, info, fmt, m.as_string, schema=fmt, **wk)
-    m2 = lib_call(ctx, "read_back_" + fmt, "C09.read:" + name, info, fmt, cls.get, data=text, schema=fmt, **rk)
+    if v.get("io") == "stream":
+        sio = io.StringIO()
+        lib_call(ctx, "write_" + fmt, "C09.write:" + name, info, fmt, m.write, file=sio, schema=fmt, **wk)
+        text = sio.getvalue()
+        m2 = lib_call(ctx, "read_back_" + fmt, "C09.read:" + name, info, fmt, cls.get, file=io.StringIO(text),
+                      schema=fmt, **rk)
+    else:
+        text = lib_call(ctx, "write_" + fmt, "C09.write:" + name, info, fmt, m.as_string, schema=fmt, **wk)
+        m2 = lib_call(ctx, "read_back_" + fmt, "C09.read:" + name, info, fmt, cls.get, data=text, schema=fmt, **rk)
     verdict(ctx, type(m2) is cls, "read_back_same_class", "C09.class:" + name, info, fmt,
             lambda: "%s: got %s want %s" % (tag, type(m2).__name__, cls.__name__))
     got = read_rows(dtype, m2)
